@@ -220,6 +220,19 @@ def darts_per_cell(src, fname, pattern):
     return int(m.group(1))
 
 
+def zero_guard(src, fname, k):
+    """`if n_square_x == 0 || n_square_y == 0 { return map; }` right after the map creation (the repair of
+    D6): True / False; any other statement mentioning `return` is not recognised"""
+    body = " ".join(fn_body(src, fname).split())
+    m = re.search(r"new_with_undefined_attributes\(" + str(k) + r" \* n_square_x \* n_square_y, manager\);\s*"
+                  r"if n_square_x == 0 \|\| n_square_y == 0 \{ return map; \}\s*\(1\.\.=", body)
+    if m:
+        need(len(re.findall(r"\breturn\b", body)) == 1, f"{fname}: more than one `return`")
+        return True
+    need(len(re.findall(r"\breturn\b", body)) == 0, f"{fname}: early return of an unrecognised shape")
+    return False
+
+
 LOOP_KINDS = [
     # (kind id, regex that must open the block)
     (0, r"\(0\.\.n_square_y\)\s*\.flat_map\(\|y_idx\| \(0\.\.n_square_x\)\.map\(move \|x_idx\| \(y_idx, x_idx\)\)\)\s*\.for_each\(\|\(y_idx, x_idx\)\| \{"),
@@ -315,6 +328,10 @@ def gen_grid():
                    r"\s*\.for_each\(\|d\| \{ let v = origin \+ generate_hex_offset\(d, n_cells_per_axis, lengths\);"
                    r" map\.force_write_vertex\(d as VertexIdType, v\); \}\);", b3),
          "build_3d_grid: vertex placement loop not recognised")
+    sq_guard = zero_guard(src, "build_2d_grid", ksq)
+    tr_guard = zero_guard(src, "build_2d_splitgrid", ktr)
+    need(len(re.findall(r"\breturn\b", " ".join(fn_body(src, "build_3d_grid").split()))) == 0,
+         "build_3d_grid: early return not recognised")
     sq_place = placement(src, "build_2d_grid", ksq)
     tr_place = placement(src, "build_2d_splitgrid", ktr)
     off_lets, arms = hex_offset(src)
@@ -341,6 +358,11 @@ def gen_grid():
                 f"    1 = top row (x ascending), 2 = right column (y ascending), 3 = last cell.  The vertex of dart\n"
                 f"    `local + x*stride + y*stride*n_x` receives `origin + ((x+dx)*lx, (y+dy)*ly)`. -/\n"
                 f"def {name} : List (Nat × Nat × Nat × Nat × Nat) := [{rows}]\n")
+    out.append("/-- `build_2d_grid` / `build_2d_splitgrid` start with\n"
+               "    `if n_square_x == 0 || n_square_y == 0 { return map; }` (otherwise a zero count reaches\n"
+               "    `n_square_x - 1` on `usize` and panics) -/")
+    out.append(f"def squareZeroGuard : Bool := {'true' if sq_guard else 'false'}\n"
+               f"def trisZeroGuard : Bool := {'true' if tr_guard else 'false'}\n")
     out.append(place_txt("squarePlace", "vertex placement blocks of `build_2d_grid`", sq_place))
     out.append(place_txt("trisPlace", "vertex placement blocks of `build_2d_splitgrid`", tr_place))
 
